@@ -338,3 +338,29 @@ kproof!(noerr, 5, fn c12_t_string_transitivity_and_unchecked() {
     kani::cover!(b[0] == b[2] && b[1] < b[3] && b[2] == b[4] && b[3] < b[5], "reach a chain x < y < z on the second byte");
     std::mem::forget(heap);
 });
+/// the six dot operators through the evaluator on two 1-byte ASCII string literals
+kproof!(noerr_nocall, 9, fn c12_t_dot_ops_strings_through_evaluator() {
+    let (a0, b0): (u8, u8) = (kani::any(), kani::any());
+    kani::assume(a0 < 128 && b0 < 128);
+    let heap = arena::heap();
+    let want = cmp_u8(a0, b0);
+    let ops = [BinaryOp::DotEqual, BinaryOp::DotNotEqual, BinaryOp::DotLess, BinaryOp::DotLessEq, BinaryOp::DotGreater, BinaryOp::DotGreaterEq];
+    let res = [want == Ordering::Equal, want != Ordering::Equal, want == Ordering::Less, want != Ordering::Greater, want == Ordering::Greater, want != Ordering::Less];
+    let mut i = 0;
+    while i < 6 {
+        let mut va = Vec::<u8>::with_capacity(1);
+        va.push(a0);
+        let mut vb = Vec::<u8>::with_capacity(1);
+        vb.push(b0);
+        let (sa, sb) = unsafe { (String::from_utf8_unchecked(va), String::from_utf8_unchecked(vb)) };
+        let e = arena::binop(ops[i], Expr::String(sa), Expr::String(sb));
+        match evaluate_ast(&e, heap.clone(), arena::env(), 0, src()) {
+            Ok(v) => assert!(same_value(v, Value::Bool(res[i]))),
+            Err(_) => panic!("dot operator failed on two strings"),
+        }
+        std::mem::forget(e);
+        i += 1;
+    }
+    kani::cover!(a0 == b0, "reach equal strings");
+    std::mem::forget(heap);
+});
